@@ -172,6 +172,17 @@ def run(ctx):
     ctx.correspond("STRICT-MALFORMED", suites.hex_malformed_cases(ctx.rng.fork("mal"), ctx.tier), hb, db, flags=fl,
                    predicate=pred_strict, nontrivial=nt)
     gen_strict_chain(ctx, hb, ctx.rng.fork("gen"), ctx.tier)
+    # strict-parser TOGETHER with the table codecs (quarter decode table, min encode table, no hex-simd)
+    for cfg2 in ("strict-decq", "strict-decmin", "strict-nosimd"):
+        hb2 = ctx.harness(cfg2)
+        if hb2 is None:
+            continue
+        fl2 = configs.flags(cfg2)
+        hc2 = header_cases(ctx.rng.fork("hdr"), ctx.tier)
+        ctx.correspond("STRICT-HEADER[%s]" % cfg2, hc2[::(3 if ctx.tier == "quick" else 1)], hb2, db, flags=fl2, predicate=pred_strict,
+                       nontrivial=nt, coq_sample=0)
+        ctx.correspond("STRICT-MALFORMED[%s]" % cfg2, suites.hex_malformed_cases(ctx.rng.fork("mal"), ctx.tier)[::(3 if ctx.tier == "quick" else 1)],
+                       hb2, db, flags=fl2, predicate=pred_strict, nontrivial=nt, coq_sample=0)
     return finish(ctx)
 
 
